@@ -381,9 +381,9 @@ def check(ctx):
             for hdl in sub.handlers:
                 name = N.txt(hdl.type) if hdl.type else 'bare'
                 sets = any(isinstance(s, ast.Assign) and
-                           N.txt(s.targets[0]) == 'suspended[name]' and
-                           '_DELAY_INTERVAL' in N.txt(s.value)
-                           for s in ast.walk(hdl))
+                           N.txt(s.targets[0]) == 'suspended[name]'
+                           and '_DELAY_INTERVAL' in K.rtxt(func, s.value)
+                           for s in K.walk_no_nested(hdl))
                 # ... or through a local closure called with the monitor's
                 # name
                 for inner in ast.walk(hdl):
